@@ -273,8 +273,12 @@ func genBlock(g *hx.Gen, r *hx.Rand) {
 	steps := 10 + r.Intn(g.N(20, 40))
 	for s := 0; s < steps; s++ {
 		switch w := r.Intn(100); {
-		case w < 60:
+		case w < 50:
 			g.Emit("b.get %d", 1+r.Intn(n+1))
+		case w < 60: // a peer asks for the block without its confirm; the next reads must still see the confirm
+			id := 1 + r.Intn(n+1)
+			g.Emit("b.push %d", id)
+			g.Emit("b.get %d", id)
 		case w < 75:
 			g.Emit("b.get2 %d", 1+r.Intn(n+1))
 		case w < 90:
